@@ -15,14 +15,22 @@ theorem resolve_only_between (ops : List Op) (h : WF ops) (src dst : Nat) (x : L
     (hx : x ∈ resolveEstablishLink (run ops) src dst) :
     x.remote = dst ∧ (src ≠ 0 → src = (run ops).localPeer) ∧
     x ∈ (specRun ops).live ∧ x.remote ≠ (run ops).localPeer := by
-  sorry
+  have hI := inv_run ops (wfh_of_eq (f := linkOf) (by funext op; cases op <;> rfl) h)
+  obtain ⟨hs, hp, hd⟩ := mem_resolve.1 hx
+  have hl := (hI.peer x).1 hp
+  refine ⟨hd, ?_, hI.links_eq ▸ hl, hI.notself x hl⟩
+  intro h0
+  rcases hs with hs | hs
+  · exact absurd hs h0
+  · exact hs
 
 /-- …and it yields ALL of them. -/
 theorem resolve_complete (ops : List Op) (h : WF ops) (src dst : Nat) (x : Link)
     (hsrc : src = 0 ∨ src = (run ops).localPeer)
     (hx : x ∈ (specRun ops).live) (hd : x.remote = dst) :
     x ∈ resolveEstablishLink (run ops) src dst := by
-  sorry
+  have hI := inv_run ops (wfh_of_eq (f := linkOf) (by funext op; cases op <;> rfl) h)
+  exact mem_resolve.2 ⟨hsrc, (hI.peer x).2 (hI.links_eq ▸ hx), hd⟩
 
 /-- A link whose remote peer is the local peer itself is closed and never yielded. -/
 theorem self_link_closed_never_yielded (ops : List Op) (l : Link)
@@ -31,12 +39,21 @@ theorem self_link_closed_never_yielded (ops : List Op) (l : Link)
     l.id ∈ (run (ops ++ [.est l])).closed ∧
     (∀ src dst, l ∉ resolveEstablishLink (run (ops ++ [.est l])) src dst) ∧
     l ∉ (run (ops ++ [.est l])).links := by
-  sorry
+  have hI := inv_run ops (WFH_prefix (wfh_of_eq (f := linkOf) (by funext op; cases op <;> rfl) h))
+  have _ := hrun  -- (closed also when not running)
+  obtain ⟨h1, h2, h3, h4⟩ := est_self_closed (wfh_of_eq (f := linkOf) (by funext op; cases op <;> rfl) h) hself
+  refine ⟨h1, ?_, h2 ▸ h4⟩
+  intro src dst hx
+  have hp := (mem_resolve.1 hx).2.1
+  rw [h3] at hp
+  exact h4 ((hI.peer l).1 hp)
 
 /-- No request ever yields a link to the local peer. -/
 theorem never_yields_self (ops : List Op) (h : WF ops) (src dst : Nat) :
     ∀ x ∈ resolveEstablishLink (run ops) src dst, x.remote ≠ (run ops).localPeer := by
-  sorry
+  have hI := inv_run ops (wfh_of_eq (f := linkOf) (by funext op; cases op <;> rfl) h)
+  intro x hx
+  exact hI.notself x ((hI.peer x).1 (mem_resolve.1 hx).2.1)
 
 example : resolveEstablishLink (run [.start 1, .est ⟨1, 7, 2⟩, .est ⟨2, 8, 3⟩, .est ⟨3, 9, 1⟩]) 0 2
     = [⟨1, 7, 2⟩] := by decide
